@@ -459,6 +459,12 @@ class HamiltonianChain(MarkovChain):
         chain.leapfrog_steps = list(D["leapfrog_steps"])
         chain.n_parameters = int(D["n_parameters"])
         chain.chain_length = int(D["chain_length"])
+        # the constructor only builds the particle mass when a start point is given
+        inverse_mass = D["inv_mass"]
+        chain.mass = get_particle_mass(
+            inverse_mass=float(inverse_mass) if inverse_mass.ndim == 0 else inverse_mass,
+            n_parameters=chain.n_parameters,
+        )
         chain.steps = int(D["steps"])
 
         t = D["theta"]
